@@ -18,7 +18,7 @@ In == /\ l <= Len(Trace) /\ Ev.op = "in" /\ cur = None
       /\ (Ev.must => adm')
       /\ UNCHANGED vars
 Out == /\ l <= Len(Trace) /\ Ev.op = "out" /\ cur # None
-       /\ (adm => L0Ok(cur, Ev.o))
+       /\ ((adm => L0Ok(cur, Ev.o)) = TRUE)
        /\ (IF adm THEN TLCSet(3, TLCGet(3) + NNotExec(cur, Ev.o)) ELSE TLCSet(2, TLCGet(2) + 1))
        /\ cur' = None /\ adm' = FALSE /\ l' = l + 1
        /\ UNCHANGED vars
